@@ -254,8 +254,30 @@ func (c *checker) lookupCheck(dst netip.Addr, list []*m.RoutingTableEntry, peer 
 					e.Path.TotalHops, e.Path.TotalDelay, o.Path.TotalHops, o.Path.TotalDelay))
 				return
 			}
+			// the same with the delay summed by the reference from the hops (not the totals the table computed):
+			// better under both readings of a hop's delay (as announced / at least the minimum hop delay),
+			// sums saturating at 65534
+			if len(o.Path.Hops) == len(e.Path.Hops) && len(e.Path.Hops) > 1 {
+				oRaw, oAdj := refDelay(o.Path.Hops)
+				eRaw, eAdj := refDelay(e.Path.Hops)
+				if oRaw < eRaw && oAdj < eAdj {
+					c.violate("lookup-not-best:delay-sum", fmt.Sprintf("%s(%s) returned a route whose hop delays sum to %d ms although one with the same %d hops and %d ms exists (table totals: %d vs %d)", name, dst,
+						eRaw, len(e.Path.Hops)-1, oRaw, e.Path.TotalDelay, o.Path.TotalDelay))
+					return
+				}
+			}
 		}
 	}
+}
+
+// refDelay sums the hop delays of a path: as announced, and with every hop counted at least m.MinHopDelay;
+// both saturate at 65534.
+func refDelay(hops []m.SwitchHop) (raw, adj uint) {
+	for _, h := range hops {
+		raw += uint(h.Delay)
+		adj += max(uint(h.Delay), uint(m.MinHopDelay))
+	}
+	return min(raw, 65534), min(adj, 65534)
 }
 
 // apply runs one operation with its post-conditions.
@@ -523,8 +545,12 @@ func largeRun(res *core.Result, r *rand.Rand, kind int, nops int) {
 			}
 		}
 		delays := make([]uint16, len(routers)+1)
+		slow := r.IntN(5) == 0 // slow paths: hop delays that sum beyond 16 bits
 		for i := range delays {
 			delays[i] = uint16(r.IntN(300))
+			if slow {
+				delays[i] = uint16(15000 + r.IntN(50000))
+			}
 		}
 		o := gossip(fmt.Sprintf("g(%s via %d relays)", dst, len(routers)), dst, delays, routers...)
 		o.entry.Path.Hops[0].Router = routerIP
